@@ -15,19 +15,27 @@ def main():
     only = set(sys.argv[3:])
     corpus = [v for v in json.load(open(os.path.join(verif, "selftest", "corpus.json"))) if prop in v["props"] and (not only or v["name"] in only)]
     tmp = tempfile.mkdtemp(prefix="txlint-selftest-")
-    def run(v):
-        src = os.path.join(repo, v["file"])
+    def run_patch(v):
+        # a seeded change kept as a unified diff: apply it to copies of the touched files
+        import re, shutil
+        pf = os.path.join(verif, v["patch"])
+        files = sorted(set(re.findall(r"^\+\+\+ b/(\S+)", open(pf).read(), re.M)))
+        d = os.path.join(tmp, v["name"])
+        os.makedirs(d, exist_ok=True)
         try:
-            s = open(src).read()
-        except OSError:
-            return dict(name=v["name"], kind=v["kind"], outcome="skipped", detail="file missing")
-        if s.count(v["old"]) != 1:
-            return dict(name=v["name"], kind=v["kind"], outcome="skipped", detail="anchor occurs %d times in the current tree" % s.count(v["old"]))
-        t = os.path.join(tmp, v["name"] + ".go")
-        open(t, "w").write(s.replace(v["old"], v["new"]) + v.get("extra_decl", ""))
-        r = subprocess.run([os.path.join(verif, "bin", "txlint"), "-prop", prop, "-no-evidence", "-repo", repo, "-verif", verif,
-                            "-overlay", "%s=%s" % (v["file"], t)], capture_output=True, text=True)
-        os.remove(t)
+            for f in files:
+                os.makedirs(os.path.dirname(os.path.join(d, f)) or d, exist_ok=True)
+                shutil.copy(os.path.join(repo, f), os.path.join(d, f))
+            r = subprocess.run(["patch", "-p1", "-s", "-f", "-d", d, "-i", pf], capture_output=True, text=True)
+            if r.returncode != 0:
+                return dict(name=v["name"], kind=v["kind"], outcome="skipped", detail="patch does not apply to the current tree")
+            ov = ",".join("%s=%s" % (f, os.path.join(d, f)) for f in files)
+            r = subprocess.run([os.path.join(verif, "bin", "txlint"), "-prop", prop, "-no-evidence", "-repo", repo, "-verif", verif, "-overlay", ov], capture_output=True, text=True)
+        finally:
+            shutil.rmtree(d, ignore_errors=True)
+        return classify(v, r)
+
+    def classify(v, r):
         viol = [l for l in r.stdout.splitlines() if l.startswith("VIOLATED") or l.startswith("UNDECIDED")]
         rules = sorted({l.split()[1] for l in viol})
         if r.returncode == 2:
@@ -42,9 +50,27 @@ def main():
         if r.returncode == 0:
             return dict(name=v["name"], kind="neutral", outcome="silent")
         return dict(name=v["name"], kind="neutral", outcome="NOISY", detail="; ".join(viol[:2])[:400])
+
+    def run(v):
+        if "patch" in v:
+            return run_patch(v)
+        src = os.path.join(repo, v["file"])
+        try:
+            s = open(src).read()
+        except OSError:
+            return dict(name=v["name"], kind=v["kind"], outcome="skipped", detail="file missing")
+        if s.count(v["old"]) != 1:
+            return dict(name=v["name"], kind=v["kind"], outcome="skipped", detail="anchor occurs %d times in the current tree" % s.count(v["old"]))
+        t = os.path.join(tmp, v["name"] + ".go")
+        open(t, "w").write(s.replace(v["old"], v["new"]) + v.get("extra_decl", ""))
+        r = subprocess.run([os.path.join(verif, "bin", "txlint"), "-prop", prop, "-no-evidence", "-repo", repo, "-verif", verif,
+                            "-overlay", "%s=%s" % (v["file"], t)], capture_output=True, text=True)
+        os.remove(t)
+        return classify(v, r)
     with cf.ThreadPoolExecutor(int(os.environ.get("TXLINT_JOBS", "6"))) as ex:
         res = list(ex.map(run, corpus))
-    os.rmdir(tmp)
+    import shutil as _sh
+    _sh.rmtree(tmp, ignore_errors=True)
     json.dump(res, open(out, "w"), indent=1)
     for r in res:
         if r["outcome"] in ("MISSED", "NOISY"):
